@@ -223,4 +223,67 @@ theorem Mat4.mul_inverse (m : Mat4 K) (h : Mat4.det m ≠ 0) :
 
 end Mat4Inverse
 
+/-! ## Monoid laws of `ComposeTransforms`, determinant laws, uniqueness of the inverse -/
+section Laws
+open Mat3 Xf
+
+/-- `Matrix3` product is associative -/
+theorem mat3_mul_assoc (a b c : Mat3 K) : (a.mul b).mul c = a.mul (b.mul c) := by
+  unfold Mat3.mul
+  simp only [Mat3.mk.injEq]
+  refine ⟨?_, ?_, ?_, ?_, ?_, ?_, ?_, ?_, ?_⟩ <;> ring
+
+/-- `Determinant` is multiplicative -/
+theorem mat3_det_mul (a b : Mat3 K) : (a.mul b).det = a.det * b.det := by
+  unfold Mat3.mul Mat3.det; ring
+
+theorem mat3_det_transpose (a : Mat3 K) : a.transpose.det = a.det := by
+  unfold Mat3.transpose Mat3.det; ring
+
+theorem mat3_transpose_mul (a b : Mat3 K) : (a.mul b).transpose = b.transpose.mul a.transpose := by
+  unfold Mat3.mul Mat3.transpose
+  simp only [Mat3.mk.injEq]
+  refine ⟨?_, ?_, ?_, ?_, ?_, ?_, ?_, ?_, ?_⟩ <;> ring
+
+/-- `ComposeTransforms` is associative: chains of node-to-parent transforms can be folded in any grouping -/
+theorem compose_assoc (a b c : Xf K) : (a.compose b).compose c = a.compose (b.compose c) := by
+  unfold Xf.compose Vec3.add Vec3.smul Mat3.mulVec Mat3.mul
+  simp only [Xf.mk.injEq, Vec3.mk.injEq, Mat3.mk.injEq]
+  refine ⟨⟨?_, ?_, ?_⟩, ⟨?_, ?_, ?_, ?_, ?_, ?_, ?_, ?_, ?_⟩, ?_⟩ <;> ring
+
+theorem id_compose (a : Xf K) : (Xf.id : Xf K).compose a = a := by
+  obtain ⟨⟨x, y, z⟩, ⟨m00, m01, m02, m10, m11, m12, m20, m21, m22⟩, s⟩ := a
+  unfold Xf.compose Xf.id Vec3.add Vec3.smul Mat3.mulVec Mat3.mul Mat3.one
+  simp only [Xf.mk.injEq, Vec3.mk.injEq, Mat3.mk.injEq]
+  refine ⟨⟨?_, ?_, ?_⟩, ⟨?_, ?_, ?_, ?_, ?_, ?_, ?_, ?_, ?_⟩, ?_⟩ <;> ring
+
+theorem compose_id (a : Xf K) : a.compose (Xf.id : Xf K) = a := by
+  obtain ⟨⟨x, y, z⟩, ⟨m00, m01, m02, m10, m11, m12, m20, m21, m22⟩, s⟩ := a
+  unfold Xf.compose Xf.id Vec3.add Vec3.smul Mat3.mulVec Mat3.mul Mat3.one
+  simp only [Xf.mk.injEq, Vec3.mk.injEq, Mat3.mk.injEq]
+  refine ⟨⟨?_, ?_, ?_⟩, ⟨?_, ?_, ?_, ?_, ?_, ?_, ?_, ?_, ?_⟩, ?_⟩ <;> ring
+
+theorem id_apply (v : Vec3 K) : (Xf.id : Xf K).apply v = v := by
+  obtain ⟨x, y, z⟩ := v
+  unfold Xf.apply Xf.id Vec3.add Vec3.smul Mat3.mulVec Mat3.one
+  simp only [Vec3.mk.injEq]
+  refine ⟨?_, ?_, ?_⟩ <;> ring
+
+/-- `ApplyTransform` with the inverse undoes `ApplyTransform` (both orders) -/
+theorem inverse_apply (a : Xf K) (hr : a.r.det ≠ 0) (hs : a.s ≠ 0) (v : Vec3 K) :
+    a.inverse.apply (a.apply v) = v ∧ a.apply (a.inverse.apply v) = v := by
+  constructor
+  · rw [← apply_compose, inverse_compose a hr hs, id_apply]
+  · rw [← apply_compose, compose_inverse a hr hs, id_apply]
+
+/-- a right inverse under `ComposeTransforms` is *the* inverse `InverseTransform` computes -/
+theorem inverse_unique (a b : Xf K) (hr : a.r.det ≠ 0) (hs : a.s ≠ 0) (h : a.compose b = Xf.id) : b = a.inverse := by
+  have : a.inverse.compose (a.compose b) = a.inverse.compose Xf.id := by rw [h]
+  rw [← compose_assoc, inverse_compose a hr hs, id_compose, compose_id] at this
+  exact this
+
+example : ((⟨⟨1, 2, 3⟩, ⟨0, -1, 0, 1, 0, 0, 0, 0, 1⟩, 2⟩ : Xf ℚ).r.det ≠ 0) := by
+  unfold Mat3.det; norm_num
+end Laws
+
 end Nifly.Xform
